@@ -1388,7 +1388,9 @@ impl FromBitStream for SubframeHeader {
             type_: r.parse()?,
             wasted_bps: match r.read_bit()? {
                 false => 0,
-                true => r.read_unary::<1>()? + 1,
+                // saturate rather than overflow: such a count exceeds any
+                // sample width and is rejected as excessive by the caller
+                true => r.read_unary::<1>()?.saturating_add(1),
             },
         })
     }
